@@ -18,6 +18,8 @@ SCOPE = (f"{A}.features", f"{A}.lmeasure", f"{A}.sholl", f"{A}.volume", f"{A}.fe
 
 
 def run(ctx, col, tier):
+    from ..rules import smalllints as _small
+    _small.run_atol(ctx, col, ('swcgeom.utils.solid_geometry', 'swcgeom.utils.volumetric_object', 'swcgeom.analysis.volume'))
     col.rule("R-GEO", "geometric typing of every observable (abstract interpretation over kind x "
              "degree): the value is a pose-independent scalar or a count -- no absolute position, "
              "vector or single coordinate reaches it, no norm of an absolute position is taken, "
@@ -41,6 +43,8 @@ def run(ctx, col, tier):
     geo, res = geosinks.check_sinks(ctx, col, "R-GEO")
     geosinks.report(col, "R-GEO", res, repo=ctx.repo)
     col.analysed["geo_summaries"] = len(geo.memo)
+    from ..rules import sortedness as _sortedness
+    _sortedness.run(ctx, col, ('swcgeom.core.swc_utils.normalizer', 'swcgeom.core.swc_utils.base', 'swcgeom.core.tree', 'swcgeom.core.tree_utils', 'swcgeom.analysis.features', 'swcgeom.analysis.sholl'))
     from ..rules import stateless
     stateless.check_memo(ctx, col, "R-MEMO", ("swcgeom.core.tree", "swcgeom.core.path", "swcgeom.core.node", "swcgeom.core.branch",
                                               "swcgeom.core.compartment", "swcgeom.core.branch_tree", "swcgeom.core.swc", "swcgeom.core.segment"))
